@@ -8479,6 +8479,16 @@ func (l *Lowerer) resolveTargetScalarKind(t parser.Type) (ir.ScalarKind, error) 
 			}
 			return ir.ScalarFloat, nil // default to float
 		default:
+			// Type alias (alias T = vec3<u32>; bitcast<T>(x)) or predeclared
+			// short name (vec2f): take the scalar kind of the resolved type.
+			if handle, err := l.resolveType(ty); err == nil && int(handle) < len(l.module.Types) {
+				switch inner := l.module.Types[handle].Inner.(type) {
+				case ir.ScalarType:
+					return inner.Kind, nil
+				case ir.VectorType:
+					return inner.Scalar.Kind, nil
+				}
+			}
 			return 0, fmt.Errorf("unsupported bitcast target type '%s'", ty.Name)
 		}
 	default:
